@@ -46,7 +46,7 @@ Next ==
               /\ UNCHANGED <<lkg, def, lits, viol>>
          [] e.ev = "Read" ->
               /\ lkg' = IF Decodable(e.kind) /\ ~e.err THEN [lkg EXCEPT ![e.kind] = [has |-> TRUE, v |-> e.res]] ELSE lkg
-              /\ viol' = viol \cup {[f |-> f, line |-> l, run |-> e.run, ev |-> e.ev, faulted |-> FALSE] : f \in ReadFails(e)}
+              /\ viol' = viol \cup {r \in {[f |-> f, line |-> l, run |-> e.run, ev |-> e.ev, faulted |-> FALSE] : f \in ReadFails(e)} : ~\E v \in viol : v.f = r.f /\ v.run = r.run}   \* first failure of a formula in a run only
               /\ UNCHANGED <<cm, sec, def, lits>>
          [] OTHER -> UNCHANGED <<cm, sec, lkg, def, lits, viol>>
 Spec == Init /\ [][Next]_vars
